@@ -9,7 +9,7 @@ for mp in sorted(glob.glob('/verif/seeded/C*/meta.json')):
     rows.append((n,cl,need,', '.join(m.get('detected_by',[])),', '.join(m.get('rules_reporting',[])[:4]),(m.get('history') or '').replace('|','/')[:220]))
 out=["# Independently seeded breaking changes","",
 "Each directory holds `patch.diff` (the change), `demo_test.go` (fails with the change, passes without), `meta.json` (what it breaks, what it needs to manifest, what was run here, which checks and rules report it), `validation.log` and `checks.txt` (output of `./run.sh all quick` with the change applied to /repo at the time it was validated; /repo was reverted straight afterwards).","",
-"Authors were fresh sub-agents that saw only the property text and a private worktree. Every change below applies to the /repo HEAD it was written against, compiles, passes the whole existing suite, and its demonstration fails with it and passes without it (all re-run here with `tools/seedcheck.sh`). `Cnn` = round 1, `Cnn-2a/-2b` = round 2, `Cnn-3a/-3b` = round 3, `Cnn-4a/-4b` = round 4 (slips hidden in restructurings; nine properties), `Cnn-5a/-5b` = round 5 (the other eleven properties; each has a repaired sibling in `benign/Cnn-3a/-3b`), `Cnn-6a/-6b` = round 6 (all twenty properties; slips hidden in enum-verdict, collect-then-process, collector-method, pointer-helper and hand-written-iterator restructurings; each has a repaired sibling in `benign/Cnn-5a/-5b`). A change whose `meta.json` carries `known_miss` is not reported by any check (one: C19-5a, a value-level slip in a hand-written decimal parser). The thorough tier replays every diff in memory against the checks listed in its `detected_by`.","",
+"Authors were fresh sub-agents that saw only the property text and a private worktree. Every change below applies to the /repo HEAD it was written against, compiles, passes the whole existing suite, and its demonstration fails with it and passes without it (all re-run here with `tools/seedcheck.sh`). `Cnn` = round 1, `Cnn-2a/-2b` = round 2, `Cnn-3a/-3b` = round 3, `Cnn-4a/-4b` = round 4 (slips hidden in restructurings; nine properties), `Cnn-5a/-5b` = round 5 (the other eleven properties; each has a repaired sibling in `benign/Cnn-3a/-3b`), `Cnn-6a/-6b` = round 6 (all twenty properties; slips hidden in enum-verdict, collect-then-process, collector-method, pointer-helper and hand-written-iterator restructurings; each has a repaired sibling in `benign/Cnn-5a/-5b`), `Cnn-7a/-7b` = round 7 (all twenty properties; slips riding on small feature, fix and optimisation commits — new options, parameters and validations, caches and early exits, better error reporting, API migrations, edge-case handling, convenience routes; written against /repo 706e1c7, before fix F10; each has a repaired sibling in `benign/Cnn-6a/-6b`). A change whose `meta.json` carries `known_miss` is not reported by any check (one: C19-5a, a value-level slip in a hand-written decimal parser). The thorough tier replays every diff in memory against the checks listed in its `detected_by`.","",
 "| id | clause broken | needs, to manifest | reported by | rules | note |","|---|---|---|---|---|---|"]
 for r in rows: out.append('| '+' | '.join(r)+' |')
 open('/verif/seeded/README.md','w').write('\n'.join(out)+'\n')
